@@ -987,5 +987,37 @@ def handwritten():
         ("hand/impl-field-conflicting-interfaces", "type Query { a: Int } interface I { f: Int } interface J { f: String } type T implements I & J { f: Int }"),
         ("hand/subtype-through-parent-only", "type Query { a: Int } interface N { a: Int } interface M implements N { a: Int } type O implements M & N { a: Int } interface I { f: N } type T implements I { f: O }"),
         ("hand/subtype-not-declared-transitively", "type Query { a: Int } interface N { a: Int } interface M implements N { a: Int } type O implements M { a: Int } interface I { f: N } type T implements I { f: O }"),
+        # --- every object literal has unique field names (5.6.3), whatever type is expected
+        ("hand/dup-field-in-scalar-top", "directive @d(a: Sc) on FIELD_DEFINITION scalar Sc type Query { a: Int @d(a: {b: 1, b: 2}) }"),
+        ("hand/dup-field-in-scalar-nested", "directive @d(a: Sc) on FIELD_DEFINITION scalar Sc type Query { a: Int @d(a: {x: {b: 1, b: 2}}) }"),
+        ("hand/dup-field-in-scalar-list", "directive @d(a: Sc) on FIELD_DEFINITION scalar Sc type Query { a: Int @d(a: [[{b: 1, b: 2}]]) }"),
+        ("hand/dup-field-in-scalar-object-list", "directive @d(a: Sc) on FIELD_DEFINITION scalar Sc type Query { a: Int @d(a: {x: [{b: 1, b: 2}]}) }"),
+        ("hand/dup-field-in-scalar-field-of-input", "directive @d(a: Io) on FIELD_DEFINITION input Io { b: Int s: Sc } scalar Sc type Query { a: Int @d(a: {b: 1, s: {x: 1, x: 2}}) }"),
+        ("hand/dup-field-in-scalar-field-of-input-nested", "directive @d(a: Io) on FIELD_DEFINITION input Io { b: Int s: Sc } scalar Sc type Query { a: Int @d(a: {b: 1, s: {y: {x: 1, x: 2}}}) }"),
+        ("hand/dup-field-in-list-of-input", "directive @d(a: [Io]) on FIELD_DEFINITION input Io { b: Int } type Query { a: Int @d(a: [{b: 1, b: 2}]) }"),
+        ("hand/dup-field-unknown-arg", "directive @d(a: Int) on FIELD_DEFINITION type Query { a: Int @d(zz: {x: 1, x: 2}) }"),
+        ("hand/dup-field-in-default", "type Query { a(x: Sc = {a: 1, a: 2}): Int } scalar Sc"),
+        # --- extensions of built-in definitions
+        ("hand/builtin-ext/scalar-specifiedBy", "type Query { a: Int } extend scalar Int @specifiedBy(url: \"x\")"),
+        ("hand/builtin-ext/scalar-undefined-directive", "type Query { a: Int } extend scalar Int @nope"),
+        ("hand/builtin-ext/scalar-wrong-location", "type Query { a: Int } extend scalar String @deprecated"),
+        ("hand/builtin-ext/scalar-repeated", "type Query { a: Int } extend scalar ID @specifiedBy(url: \"x\") @specifiedBy(url: \"y\")"),
+        ("hand/builtin-ext/scalar-missing-arg", "type Query { a: Int } extend scalar Float @specifiedBy"),
+        ("hand/builtin-ext/custom-scalar-undefined-directive", "type Query { a: S } scalar S extend scalar S @nope"),
+        ("hand/builtin-ext/type-undefined-directive", "type Query { a: Int } extend type __Type @nope"),
+        ("hand/builtin-ext/type-field", "type Query { a: Int } extend type __Schema { foo: Int }"),
+        ("hand/builtin-ext/type-field-undefined-type", "type Query { a: Int } extend type __Type { x: Zzz }"),
+        ("hand/builtin-ext/type-reserved-field", "type Query { a: Int } extend type __Type { __x: Int }"),
+        ("hand/builtin-ext/enum-reserved-value", "type Query { a: Int } extend enum __TypeKind { __X }"),
+        ("hand/builtin-ext/enum-value", "type Query { a: Int } extend enum __TypeKind { X }"),
+        ("hand/builtin-refs", "type Query { t: __Type k(k: __TypeKind): __TypeKind }"),
+        ("hand/builtin-root", "schema { query: __Schema }"),
+        ("hand/reserved-typename-field", "type Query { __typename: Int }"),
+        ("hand/schema-ext-directive", "directive @d on SCHEMA type Query { a: Int } extend schema @d"),
+        ("hand/schema-ext-directive-twice", "directive @d on SCHEMA type Query { a: Int } extend schema @d @d"),
+        ("hand/schema-ext-directive-repeats-def", "directive @d on SCHEMA schema @d { query: Query } type Query { a: Int } extend schema @d"),
+        ("hand/schema-ext-directive-wrong-loc", "type Query { a: Int } extend schema @deprecated"),
+        ("hand/enum-ext-value-directive-wrong-type", "type Query { a: Int } enum E { A } extend enum E { B @deprecated(reason: 1) }"),
+        ("hand/iface-ext-adds-field-missing-in-impl", "type Query { a: Int } type T implements I { f: Int } interface I { f: Int } extend interface I { g: Int }"),
     ]
     return [(t, s + "\n") for t, s in c]
